@@ -6,7 +6,7 @@ import os, re, sys, json, time, shutil, subprocess, hashlib, fcntl, difflib, glo
 VERIF = os.path.dirname(os.path.dirname(os.path.abspath(__file__)))
 REPO = os.environ.get('VERIF_REPO', '/repo')
 GEN = os.environ.get('VERIF_GEN', os.path.join(VERIF, 'gen'))
-CACHE = os.path.join(VERIF, '.cache')
+CACHE = os.environ.get('VERIF_CACHE', os.path.join(VERIF, '.cache'))
 SCRATCH_ROOT = os.environ.get('VERIF_SCRATCH', '/tmp/allsorts-verif-scratch')
 
 sys.path.insert(0, os.path.dirname(os.path.abspath(__file__)))
